@@ -172,6 +172,10 @@ class Machine:
         self.models = []
         self.deadline = None
         self.sequential = False
+        self.guarded_cells = []   # (obj, path prefix, lock Ptr, name): plain accesses need the lock held
+        self.guarded_maps = {}    # map object -> (lock Ptr, name)
+        self.atomic_only = {}     # (obj, path) -> name: only sync/atomic accesses allowed
+        self.in_atomic = False
         self.lit_cache = {}
         self.nlit = 0
         self.lazy_split = bool(__import__("os").environ.get("GOBMC_LAZY"))
@@ -411,7 +415,28 @@ class Machine:
         alt.ov[obj] = val
         return obj
 
+    def lock_held(self, alt, lockp):
+        st = nav(self.hget(alt, lockp.obj), lockp.path)
+        if type(st) is tuple:      # RWMutex (writer, readers)
+            w, r = st
+            return OR(self.bool_of(lift1(w, lambda x: x != 0)), self.bool_of(lift1(r, lambda x: x > 0)))
+        return self.bool_of(lift1(st, lambda x: x != 0))
+
+    def discipline(self, alt, p, pos, write):
+        """lock / atomic discipline of registered shared cells (C17, reduced claim)"""
+        if self.atomic_only and not self.in_atomic:
+            nm = self.atomic_only.get((p.obj, p.path))
+            if nm is not None:
+                self.violations.append(("assert", alt.guard, "%s is accessed with sync/atomic operations only (a plain %s races with them)" % (nm, "write" if write else "read"), pos, self.step))
+        for (obj, pref, lockp, nm) in self.guarded_cells:
+            if p.obj == obj and p.path[:len(pref)] == pref:
+                held = self.lock_held(alt, lockp)
+                if held is not True:
+                    self.violations.append(("assert", AND(alt.guard, NOT(held)), "%s is only accessed while its lock is held" % nm, pos, self.step))
+
     def load(self, alt, p, pos=""):
+        if type(p) is Ptr and (self.guarded_cells or self.atomic_only):
+            self.discipline(alt, p, pos, False)
         if type(p) is Union:
             outs = []
             for g, x in p.alts:
@@ -441,6 +466,8 @@ class Machine:
                 raise _Panicked()
             self.sym_panic(alt, g, "nil pointer dereference (store)", pos)
             return
+        if self.guarded_cells or self.atomic_only:
+            self.discipline(alt, p, pos, True)
         old = self.hget(alt, p.obj)
         self.hset(alt, p.obj, upd(old, p.path, v, g))
 
@@ -1635,10 +1662,21 @@ def i_makemap(m, alt, fr, ins, work):
     fr.idx += 1
 
 
+def map_discipline(m, alt, mp, pos):
+    if mp is None or not m.guarded_maps:
+        return
+    ent = m.guarded_maps.get(mp.obj)
+    if ent is not None:
+        held = m.lock_held(alt, ent[0])
+        if held is not True:
+            m.violations.append(("assert", AND(alt.guard, NOT(held)), "%s is only accessed while its lock is held" % ent[1], pos, m.step))
+
+
 def map_lookup(m, alt, mp, key, zero):
     """-> (value, found) ; mp plain MapRef/None"""
     if mp is None:
         return zero, False
+    map_discipline(m, alt, mp, "")
     st = m.hget(alt, mp.obj)
     outs = []
     for g, entries in alts_of(st):
@@ -1701,6 +1739,7 @@ def i_mapupdate(m, alt, fr, ins, work):
                 raise _Panicked()
             m.sym_panic(alt, g, "assignment to entry in nil map", ins["pos"])
             continue
+        map_discipline(m, alt, mp, ins.get("pos", ""))
         st = m.hget(alt, mp.obj)
         new = mk_union([(gs, map_update_state(m, entries, key, val, g)) for gs, entries in alts_of(st)])
         m.hset(alt, mp.obj, new)
@@ -1711,6 +1750,7 @@ def map_delete(m, alt, x, key):
     for g, mp in alts_of(x):
         if mp is None:
             continue
+        map_discipline(m, alt, mp, "")
         st = m.hget(alt, mp.obj)
         outs = []
         for gs, entries in alts_of(st):
@@ -1738,6 +1778,9 @@ def i_range(m, alt, fr, ins, work):
         if x is None:
             st = ()
         else:
+            # the real runtime walks the live map during the whole loop; the encoding takes its entries here, so the
+            # discipline is checked at the start of the loop
+            map_discipline(m, alt, x, ins.get("pos", ""))
             st = m.hget(alt, x.obj)
         if m.map_perm:
             st = m.permute_entries(alt, st)
